@@ -77,6 +77,27 @@ ASSUME \A ns \in Lists : (Valid(ns) >= 0) => Normalize(ns) = [steps |-> ns, bsp 
 Deep == [i \in 1..(MaxLen + 1) |-> "a"]
 ASSUME \A ns \in Lists : Normalize(ns).bsp >= 0 => Resolve(Deep, Normalize(ns).steps) = Resolve(Deep, ns)
 
+\* ---- ToWalk (the command-line helper): a path string, given here by its "/"-separated components and whether it
+\* starts with "/"; steps to hand to Walk from the root (absolute) or from the current entry (relative).
+\* An absolute path may not keep any ".." (it would climb above the root); a relative one may keep a leading run.
+NoSlash == {n \in Alphabet : n \notin {"a/b", "/"}}
+TWLists == UNION {[1..n -> NoSlash] : n \in 0..MaxLen}
+\* (a first component "" followed by more components makes the string itself start with "/")
+IsAbs(abs, cs) == abs \/ (Len(cs) >= 2 /\ cs[1] = "")
+ToWalk(abs, cs) ==
+  LET n == Normalize(cs) IN
+  IF IsAbs(abs, cs) THEN [isabs |-> TRUE, ok |-> n.bsp = 0, steps |-> IF n.bsp = 0 THEN n.steps ELSE <<>>]
+  ELSE [isabs |-> FALSE, ok |-> n.bsp >= 0, steps |-> IF n.bsp >= 0 THEN n.steps ELSE <<>>]
+\* an accepted absolute path resolves from the root exactly as its components do, and never above it
+ASSUME \A cs \in TWLists : LET w == ToWalk(TRUE, cs) IN
+         w.ok => (Resolve(<<>>, w.steps) # None /\ Resolve(<<>>, w.steps) = Resolve(<<>>, cs) /\ Valid(w.steps) = 0)
+\* a rejected absolute path is one whose stepwise resolution climbs above the root at some point, or has a separator
+ASSUME \A cs \in TWLists : LET w == ToWalk(TRUE, cs) IN
+         (~w.ok /\ \A i \in 1..Len(cs) : cs[i] # "a\\b") => \E k \in 1..Len(cs) : Resolve(<<>>, SubSeq(cs, 1, k)) = None
+ASSUME \A cs \in TWLists : LET w == ToWalk(FALSE, cs) IN
+         (w.ok /\ ~w.isabs) => (Valid(w.steps) >= 0 /\ Resolve(Deep, w.steps) = Resolve(Deep, cs))
+ASSUME \A abs \in BOOLEAN, cs \in TWLists : PrintT(ToJson([t |-> "towalk", abs |-> abs, comps |-> cs, r |-> ToWalk(abs, cs)]))
+
 ASSUME \A ns \in Lists : PrintT(ToJson([t |-> "list", names |-> ns, valid |-> Valid(ns), norm |-> Normalize(ns)]))
 ASSUME \A d \in Dirs, ns \in Lists : PrintT(ToJson([t |-> "walk", dir |-> d, names |-> ns, r |-> WalkName(d, ns)]))
 ASSUME \A d \in Dirs, n \in Alphabet : PrintT(ToJson([t |-> "create", dir |-> d, name |-> n, r |-> CreateName(d, n)]))
